@@ -237,13 +237,19 @@ def m_ole_openstream(ex, st, obj, args, kwargs, node):
 def m_olestream_read(ex, st, obj, args, kwargs, node):
     """OleStream.read(): ASSUMED to fail (stream not READABLE) or return the whole stream: a byte string of length SLEN >= 0."""
     key = st.ghost.get(("olestream", obj.t.get_id()))
-    if key is None or args:
+    lim = args[0] if len(args) == 1 and isinstance(args[0], VInt) else None
+    if key is None or (args and lim is None) or st.ghost.get(("olestream_read", obj.t.get_id())):
         ex.exc_any(st.fork(), f"{ex.loc(node)} OleStream.read")
         return [(st, VUnk("bytes"))]
     ole, name = key[0].t, key[1].t
     ex.exc_any(st.fork().assume(z3.Not(READABLE(ole, name))), f"{ex.loc(node)} OleStream.read")
     st.assume(z3.And(SLEN(ole, name) >= 0, READABLE(ole, name)))
-    return [(st, VSeq(SLEN(ole, name), lambda i: VInt(SBYTE(ole, name, i)), "byte", True, tag=(ole, name)))]
+    st.ghost[("olestream_read", obj.t.get_id())] = True         # (a second read on the same handle continues: not modelled)
+    n = SLEN(ole, name)
+    if lim is not None:                                          # read(k): the first min(k, len) bytes (k < 0: everything)
+        k_ = ops.int_term(lim)
+        n = z3.simplify(z3.If(z3.Or(k_ < 0, k_ > n), n, k_))
+    return [(st, VSeq(n, lambda i: VInt(SBYTE(ole, name, i)), "byte", True, tag=(ole, name)))]
 
 
 def m_is_zipfile(ex, st, args, kwargs, node):
@@ -506,7 +512,7 @@ class C08Executor(readfile.ReadFileExecutor):
                     return res
         return super().exec_block(stmts, st)
 
-    def call(self, st, f, args, kwargs, node):
+    def _call(self, st, f, args, kwargs, node):
         if isinstance(f, VFunc) and f.how == "classattr" and f.a == "int" and f.b == "from_bytes":
             return self.int_from_bytes(st, args, kwargs, node)
         if isinstance(f, VFunc) and f.how == "classattr" and str(f.a).endswith("ElementTree") and f.b == "fromstring":
@@ -520,19 +526,24 @@ class C08Executor(readfile.ReadFileExecutor):
         if not (isinstance(seq, VSeq) and seq.is_bytes and oc in ("little", "big")) or kwargs.get("signed") is not None:
             return self.havoc_call(st, "int.from_bytes", args, node)
         n = seq.length
-        e0, e1 = ops.int_term(seq.elem(z3.IntVal(0))), ops.int_term(seq.elem(z3.IntVal(1)))
-        st.assume(z3.And(e0 >= 0, e0 <= 255, e1 >= 0, e1 <= 255))      # elements of a bytes object
+        K = 8                                                            # exact up to 8 bytes, an unknown non-negative int beyond
+        es = [ops.int_term(seq.elem(z3.IntVal(k_))) for k_ in range(K)]
         other = z3.Int(fresh_name("from_bytes"))
         st.assume(other >= 0)
-        two = e0 + 256 * e1 if oc == "little" else 256 * e0 + e1
-        return [(st, VInt(z3.If(n == 2, two, z3.If(n == 1, e0, z3.If(n == 0, z3.IntVal(0), other)))))]
+        acc = other
+        for m_ in range(K, -1, -1):
+            if m_ > 0:
+                st.assume(z3.Implies(n >= m_, z3.And(es[m_ - 1] >= 0, es[m_ - 1] <= 255)))      # elements of a bytes object
+            val = z3.Sum([es[k_] * (256 ** (k_ if oc == "little" else m_ - 1 - k_)) for k_ in range(m_)]) if m_ > 1 else (es[0] if m_ == 1 else z3.IntVal(0))
+            acc = z3.If(n == m_, val, acc)
+        return [(st, VInt(acc))]
 
     def obj_method(self, st, obj, name, args, kwargs, node):
         q = f"{st.obj(obj.ref).cls}.{name}"
         if not self.inline_calls and name not in INLINE_METHODS and self.reg.get(f"{self.module.rel}::{q}") is None:
             fnode = self.module.functions.get(q)
             small = fnode is not None and sum(1 for _ in ast.walk(fnode)) <= 700 and not any(fnode is x for x in self.cur_fn_stack)
-            if not (self.inline_local and small and self.inline_depth < 3 and self._relevant_helper(q)):
+            if not (self.inline_local and not self.merge and small and self.inline_depth < 3 and self._relevant_helper(q)):
                 return self.havoc_call(st, f"method:{name}", [obj] + list(args), node)
         return super().obj_method(st, obj, name, args, kwargs, node)
 
@@ -549,7 +560,8 @@ class C08Executor(readfile.ReadFileExecutor):
         return super().resolve_dotted(dotted_)
 
     RELEVANT = ("ExtractionFileEncryptedError", "Encrypted7zFile", "_encrypted", "needs_password", "decrypt", "patch_pypdf_fallback_aes",
-                "flag_bits", "is_encrypted", "CODER_AES_PREFIX", "FIB_ENCRYPTED_FLAG")
+                "flag_bits", "is_encrypted", "CODER_AES_PREFIX", "FIB_ENCRYPTED_FLAG", ".ole", "_get_stream", "openstream")
+    TRACKED_SORTS = ("DocReader", "PdfReader", "SevenZipFile", "EpubContext", "OleFile", "ZipFile", "OleStream", "Folder", "CoderId")
 
     def _relevant_helper(self, name, depth=0):
         """Does this same-module helper (or one it calls, two levels) take part in encryption detection?  Only such helpers are
@@ -569,8 +581,16 @@ class C08Executor(readfile.ReadFileExecutor):
         cache[name] = ok
         return ok
 
+    def call(self, st, f, args, kwargs, node):
+        self._cur_call_args = list(args) + list(kwargs.values())
+        return self._call(st, f, args, kwargs, node)
+
     def local_helper(self, f):
-        r = super().local_helper(f) and self._relevant_helper(f.b)
+        # relevant by what it does (tokens), or by what it is given: a helper that receives the opened container / reader /
+        # context takes part in the detection protocol (`_read_document(reader, path)`)
+        handed = not self.merge and any(isinstance(a, VExt) and a.sort in self.TRACKED_SORTS for a in getattr(self, "_cur_call_args", ()))
+        # (once the rejection site is passed -- merged mode -- helpers that merely use the open container are not followed)
+        r = not self.merge and super().local_helper(f) and (self._relevant_helper(f.b) or handed)
         if r and os.environ.get("C08_TRACE_INLINE"):
             print(f"[inline_local] {self.contract.target.split('::')[-1] if self.contract else '?'} <- {f.b}", file=sys.stderr, flush=True)
         return r
@@ -692,7 +712,7 @@ class C08Executor(readfile.ReadFileExecutor):
             return inferred[1]
         if isinstance(node, ast.For) and kind == "for" and isinstance(it, VSeq) and isinstance(it.tag, tuple) and it.tag:
             return LOOP_RULES.get((it.ekind, it.tag[0]))
-        if isinstance(node, ast.While) and kind == "while" and st is not None:
+        if isinstance(node, ast.While) and kind == "while" and st is not None and self.module.rel == ENC:
             env = st.frames[-1].env
             if len([v for v in env.values() if isinstance(v, VSeq) and v.is_bytes and isinstance(v.tag, tuple)]) == 1:
                 return LOOP_RULES.get(("while", "record-chain"))
@@ -994,11 +1014,22 @@ class C08Executor(readfile.ReadFileExecutor):
             return self.havoc_call(st, "setattr", args, node)
         return [(s_, NONE) for s_ in self.store_attr(st, args[0], nm, args[2], node)]
 
+    @staticmethod
+    def _reversed_seq(q):
+        return VSeq(q.length, lambda i, q=q: q.elem(q.length - 1 - i), q.ekind, q.is_bytes, tag=("reversed", q.tag))
+
     def b_reversed(self, st, args, kwargs, node):
         if args and isinstance(args[0], VSeq):
-            q = args[0]
-            return [(st, VSeq(q.length, lambda i, q=q: q.elem(q.length - 1 - i), q.ekind, q.is_bytes, tag=("reversed", q.tag)))]
+            return [(st, self._reversed_seq(args[0]))]
         return super().b_reversed(st, args, kwargs, node)
+
+    def get_slice(self, st, base, sl, node):
+        # seq[::-1] is reversed(seq)
+        if isinstance(base, VSeq) and sl.lower is None and sl.upper is None and sl.step is not None:
+            r = self.ev(sl.step, st)
+            if len(r) == 1 and isinstance(r[0][1], VInt) and r[0][1].const() == -1:
+                return [(r[0][0], self._reversed_seq(base))]
+        return super().get_slice(st, base, sl, node)
 
     def b_next(self, st, args, kwargs, node):
         # next((True for x in seq if cond(x)), False)  ==  any(cond(x) for x in seq)
@@ -2275,6 +2306,45 @@ def _canon(mod, call):
     return (origin + ("." + rest if rest else "")) if origin else d
 
 
+class _ReturnFacts(MustFacts):
+    """MustFacts that also records the facts holding at every `return` of the analysed function."""
+
+    def run(self, fnode, entry_facts=()):
+        self.results, self.at_return = [], []
+        end = self.block(fnode.body, frozenset(entry_facts))
+        if end is not None:
+            self.at_return.append(end)          # falling off the end
+        return self.results
+
+    def stmt(self, s, facts):
+        if isinstance(s, ast.Return):
+            self.at_return.append(self._expr(s.value, facts))
+            return None
+        return super().stmt(s, facts)
+
+
+def _surely_parses(m, call, depth=0, seen=()):
+    """The call is the parse itself (`<reader>.read()`), or a call of a helper of the same module (plain name or method) that
+    performs the parse on EVERY path on which it returns (summary computed on the helper's real AST; two levels)."""
+    if isinstance(call.func, ast.Attribute) and call.func.attr == "read":
+        return True
+    if depth >= 2:
+        return False
+    if isinstance(call.func, ast.Name):
+        name = call.func.id
+        fnode = m.functions.get(name)
+    elif isinstance(call.func, ast.Attribute) and isinstance(call.func.value, ast.Name) and call.func.value.id in ("self", "cls"):
+        name = call.func.attr
+        fnode = next((f_ for q_, f_ in m.functions.items() if q_.endswith("." + name) and "<locals>" not in q_), None)
+    else:
+        return False
+    if fnode is None or name in seen or any(isinstance(n, (ast.Yield, ast.YieldFrom)) for n in ast.walk(fnode)):
+        return False
+    rf = _ReturnFacts(gen=lambda c_: ["parsed"] if _surely_parses(m, c_, depth + 1, seen + (name,)) else [])
+    rf.run(fnode)
+    return all("parsed" in fs for fs in rf.at_return)
+
+
 def policy(repo, tier):
     obls, fns = [], []
     # P2: read_doc: the parse (doc.read()) dominates the yield; the reader is fresh (constructed in read_doc, _content None in __init__)
@@ -2283,7 +2353,7 @@ def policy(repo, tier):
     init = m.functions.get("_DocReader.__init__")
     ok, why = False, "read_doc / _DocReader.__init__ missing"
     if f is not None and init is not None:
-        mf = MustFacts(gen=lambda call: ["parsed"] if isinstance(call.func, ast.Attribute) and call.func.attr == "read" else [],
+        mf = MustFacts(gen=lambda call: ["parsed"] if _surely_parses(m, call) else [],
                        need=lambda n: [("parsed", f"line {n.lineno}")] if isinstance(n, (ast.Yield, ast.YieldFrom)) else [])
         res = mf.run(f)
         fresh = any(isinstance(n, ast.With) and any(isinstance(i.context_expr, ast.Call) and dotted(i.context_expr.func) == "_DocReader" for i in n.items)
@@ -2326,6 +2396,27 @@ def policy(repo, tier):
                 # any other unrecognised shape is left to the native replayer (protected attachments)
                 obls.append(ground_obligation(oid, verdict is not False, why, DT, definite=bool(verdict is False and swallows)))
         fns.append(dict(m.fn_info("EmailContent.iterate_supported_attachments"), obligations=1))
+    # P6: the pypdf reader is constructed WITHOUT a password (ASSUMED pypdf view, validated natively: a constructor that is
+    #     handed a password explicitly raises WrongPasswordError when it does not open the file, so a file that needs a real
+    #     password never reaches the `decrypt("") == 0 -> file-encrypted error` mapping of read_pdf).  Shape rule: other
+    #     shapes (a password expression, **kwargs, a handler mapping WrongPasswordError) are `unknown` -> native PDF pairs decide.
+    oid = "C08/pdf_extractor.py::PdfReader-constructions/policy#password-is-left-to-the-decrypt-check"
+    try:
+        m = loader.module(PDF, repo)
+        sites, odd = [], []
+        for n in ast.walk(m.tree):
+            if isinstance(n, ast.Call) and _canon(m, n).split(".")[-1] == "PdfReader" and _canon(m, n).split(".")[0] in ("pypdf", "PdfReader"):
+                sites.append(n.lineno)
+                pw = [k.value for k in n.keywords if k.arg == "password"] + list(n.args[2:3])
+                if any(k.arg is None for k in n.keywords) or any(isinstance(a, ast.Starred) for a in n.args) \
+                        or any(not (isinstance(v, ast.Constant) and v.value is None) for v in pw):
+                    odd.append(n.lineno)
+        ok = bool(sites) and not odd
+        why = f"PdfReader constructed at line(s) {sites}" + (f"; explicit password / unrecognised arguments at line(s) {odd}" if odd else ", never with a password") \
+            if sites else "no PdfReader construction found (shape not recognised)"
+    except Exception as e:  # noqa
+        ok, why = False, f"shape not recognised: {type(e).__name__}"
+    obls.append(ground_obligation(oid, ok, why, PDF, definite=False))
     return {"obligations": obls, "functions": fns}
 
 
